@@ -2503,6 +2503,9 @@ func (db *DB) WriteLTXFileAt(ctx context.Context, r io.Reader) (string, error) {
 		if got, want := hdr.PreApplyChecksum, prevPos.PostApplyChecksum; got != want {
 			return "", fmt.Errorf("pre-apply checksum mismatch: %s, expecting %s", got, want)
 		}
+		if got, want := hdr.PageSize, db.pageSize; want != 0 && got != want {
+			return "", fmt.Errorf("page size mismatch: %d, expecting %d", got, want)
+		}
 	}
 
 	// Write LTX file to a temporary file.
